@@ -777,6 +777,10 @@ func (m *Machine) symString(name string, n int) Value {
 	b := m.newBlock(n, 1, "symbolic string "+name)
 	b.owner = "harness"
 	for i := 0; i < n; i++ {
+		if m.fixed != nil {
+			m.rawStore(b, i, c.Const(m.nextFixed(name, "u8"), 8), 1)
+			continue
+		}
 		v := m.fresh("s", 8)
 		m.nondets = append(m.nondets, nondetRec{name: fmt.Sprintf("%s[%d]", name, i), kind: "u8", t: v})
 		m.rawStore(b, i, v, 1)
